@@ -551,6 +551,13 @@ func TestVerifC13(t *testing.T) {
 		if tg.name == "car-remote" && len(cuts) > 70 && quick {
 			cuts = cuts[:70]
 		}
+		if (tg.name == "car" || tg.name == "car-remote") && !quick && len(cuts) > 2500 {
+			// every cut loads an epoch: the first 600 offsets (header and first sections), the tail and a seeded sample
+			head := append([]int64{}, cuts[:600]...)
+			rest := cuts[600:]
+			rng.Shuffle(len(rest), func(i, j int) { rest[i], rest[j] = rest[j], rest[i] })
+			cuts = append(head, rest[:1900]...)
+		}
 		if strings.HasPrefix(tg.name, "server/") {
 			// each cut loads an epoch: boundaries, a seeded sample and the tail of the file
 			rng.Shuffle(len(cuts), func(i, j int) { cuts[i], cuts[j] = cuts[j], cuts[i] })
